@@ -1620,9 +1620,48 @@ func checkTrackMsgReadOnly(rep *Reporter, r *gen.Rng) {
 	})
 }
 
+// checkContentDetermines: "the bytes produced by Pack depend only on the message's logical
+// content" - a NEW message given the same content (the values GetFields reports, written through
+// Marshal; and the JSON document, decoded) packs to the same bytes as the message the history
+// produced. A value cached beside the one the accessors show (and used by Pack) breaks this.
+func checkContentDetermines(rep *Reporter, c *hcase) {
+	line := c.line(c.ops, "")
+	safely(rep, line, func() {
+		m := c.replay(c.ops).Cur
+		s := observe(m)
+		if !strings.HasPrefix(s.P, "ok:") {
+			return
+		}
+		rep.Case(line + " #content")
+		vt, ok := impl.ParseTree(s.V)
+		if ok {
+			fresh := iso8583.NewMessage(c.spec)
+			if impl.SetMsg(fresh, vt) {
+				s2 := observe(fresh)
+				if s2.V == s.V && s2.P != s.P {
+					rep.Viol("a new message holding the same values (as GetFields reports them) packs to different bytes", line,
+						fmt.Sprintf("values %s | after the history Pack=%s | new message Pack=%s", s.V, s.P, s2.P))
+					return
+				}
+			}
+		}
+		if strings.HasPrefix(s.J, "{") {
+			fresh := iso8583.NewMessage(c.spec)
+			if json.Unmarshal([]byte(s.J), fresh) == nil {
+				s2 := observe(fresh)
+				if s2.J == s.J && s2.V == s.V && s2.P != s.P {
+					rep.Viol("a new message decoded from the JSON of this one (same JSON, same values) packs to different bytes", line,
+						fmt.Sprintf("JSON %s | after the history Pack=%s | new message Pack=%s", s.J, s.P, s2.P))
+				}
+			}
+		}
+	})
+}
+
 func checkC15History(rep *Reporter, c *hcase) {
 	r := gen.NewRng(uint64(len(c.ops))*7919 + uint64(len(c.specS)))
 	checkDeterminism(rep, c)
+	checkContentDetermines(rep, c)
 	checkReadOnly(rep, c, r)
 	checkCloneIndependent(rep, c, r)
 	checkPopulationOrder(rep, c, r)
@@ -1633,6 +1672,7 @@ func runC15(t gen.Tier, r *gen.Rng, rep *Reporter) {
 	g := gen.NewFieldGen(r)
 	forCases(t, r, t.N(150, 3000), t.N(150, 3000), t.N(150, 4000), func(c *hcase) {
 		checkDeterminism(rep, c)
+		checkContentDetermines(rep, c)
 		checkReadOnly(rep, c, r)
 		checkCloneIndependent(rep, c, r)
 		checkPopulationOrder(rep, c, r)
